@@ -95,7 +95,9 @@ func NewStreamingDynamicCollector(max int, writer io.Writer) Collector {
 }
 
 func (c *streamingDynamicCollector) Reset() {
-	c.streamingCollector = newStreamingCollector(c.streamingCollector.maxSamples, c.output)
+	// reset the wrapped collector in place: it may not be the default
+	// (compressing) one, and it holds the metadata.
+	c.streamingCollector.Reset()
 	c.metricCount = 0
 	c.hash = ""
 }
@@ -108,21 +110,21 @@ func (c *streamingDynamicCollector) Add(in interface{}) error {
 
 	docHash, num := metricKeyHash(doc)
 	if c.hash == "" {
-		c.hash = docHash
-		c.metricCount = num
 		if c.streamingCollector.count > 0 {
 			if err := FlushCollector(c, c.output); err != nil {
 				return errors.WithStack(err)
 			}
 		}
-		return errors.WithStack(c.streamingCollector.Add(doc))
-	}
-
-	if c.metricCount != num || c.hash != docHash {
+	} else if c.metricCount != num || c.hash != docHash {
 		if err := FlushCollector(c, c.output); err != nil {
 			return errors.WithStack(err)
 		}
 	}
+
+	// flushing resets the collector, including the schema: record
+	// the schema of the current chunk after it.
+	c.hash = docHash
+	c.metricCount = num
 
 	return errors.WithStack(c.streamingCollector.Add(doc))
 }
